@@ -12,6 +12,7 @@ import (
 	"go/types"
 	"sort"
 	"strings"
+	"sync"
 )
 
 type TS struct {
@@ -87,10 +88,13 @@ func (w *World) TypeSets() *tsEngine {
 
 // tsTypes remembers the type behind each rendered name (for method-set questions about a type set).
 var tsTypes = map[string]types.Type{}
+var tsTypesMu sync.Mutex
 
 func typeName(t types.Type) string {
 	n := types.TypeString(t, func(p *types.Package) string { return p.Name() })
+	tsTypesMu.Lock()
 	tsTypes[n] = t
+	tsTypesMu.Unlock()
 	return n
 }
 
